@@ -15,7 +15,8 @@ func VerifHarness_CoinRegistry_Deliver() {
 	signer := 1 + verifConfig("signerB")
 	sender := verifAddr(signer)
 	nonce0 := u.st.Accounts.GetNonce(sender)
-	sym := []types.CoinSymbol{verifSym("NEW"), verifSym("AAA"), verifSym("TOK")}[verifConfig("ticker")]
+	// ticker 3: the ownerless pool-token ticker (config pool10 lp10)
+	sym := []types.CoinSymbol{verifSym("NEW"), verifSym("AAA"), verifSym("TOK"), LiquidityCoinSymbol(1)}[verifConfig("ticker")]
 	oldID := types.CoinID(verifConfig("ticker")) // 0 = none
 	count0 := u.st.App.GetCoinsCount()
 	newID := types.CoinID(count0 + 1)
@@ -61,7 +62,7 @@ func VerifHarness_CoinRegistry_Deliver() {
 		verifAssert("C22:initial-volume", after.get("volume."+newID.String()).Cmp(amount) == 0 && amount.Cmp(max) <= 0)
 	case 2, 3:
 		verifAssert("C22:recreate-only-an-existing-ticker", existed)
-		verifAssert("C22:recreate-only-by-the-ticker-owner", signer == 1)
+		verifAssert("C22:recreate-only-by-the-ticker-owner", signer == 1 && verifConfig("ticker") != 3)
 		verifAssert("C22:new-coin-gets-the-next-id", count1 == count0+1 && u.st.Coins.Exists(newID))
 		m := u.st.Coins.GetCoinBySymbol(sym, 0)
 		verifAssert("C22:active-ticker-resolves-to-the-new-coin", m != nil && m.ID() == newID)
@@ -72,7 +73,7 @@ func VerifHarness_CoinRegistry_Deliver() {
 		o := owner()
 		verifAssert("C22:ticker-owner-unchanged-by-recreation", o != nil && *o == sender)
 	case 4:
-		verifAssert("C22:owner-change-only-by-the-ticker-owner", existed && signer == 1)
+		verifAssert("C22:owner-change-only-by-the-ticker-owner", existed && signer == 1 && verifConfig("ticker") != 3)
 		o := owner()
 		verifAssert("C22:ticker-has-the-new-owner", o != nil && *o == u.B)
 		verifAssert("C22:owner-change-uses-no-coin-id", count1 == count0)
